@@ -41,9 +41,18 @@ def main():
     ap.add_argument('--tier', default='quick')
     ap.add_argument('--keep-as')
     ap.add_argument('--needs', default='')
+    ap.add_argument('--worktree', action='store_true', help='apply the patch in a scratch worktree of /repo instead of /repo itself (exploratory, parallel-safe)')
     a = ap.parse_args()
+    global REPO
     seed = os.path.abspath(a.seed)
     checks = (a.checks or a.prop).split(',')
+    wt = None
+    extra_env = {}
+    if a.worktree:
+        wt = '/tmp/st_%d' % os.getpid()
+        sh('git -C /repo worktree add -q --detach %s HEAD' % wt)
+        REPO = wt
+        extra_env = {'VERIF_REPO': wt, 'PYTHONPATH': wt}
     rc, out = sh('git status --porcelain', cwd=REPO)
     if out.strip():
         print('repo dirty, abort')
@@ -66,15 +75,24 @@ def main():
         res['ran'].append('demo.py with change -> exit %d' % rc)
         for c in checks:
             t0 = time.time()
-            rc, out = sh('PYTHONHASHSEED=0 %s -m mc.check %s --tier %s' % (PY, c, a.tier), cwd=VERIF, timeout=7200)
+            ev = dict(extra_env)
+            if wt:
+                ev['VERIF_EVIDENCE_OUT'] = '/tmp/st_ev_%d.json' % os.getpid()
+            rc, out = sh('PYTHONHASHSEED=0 %s -m mc.check %s --tier %s' % (PY, c, a.tier), cwd=VERIF, timeout=14400, env=ev)
             sigs = re.findall(r'signature: (\S+)', out)
             res['checks'][c] = {'exit': rc, 'signatures': sigs[:8], 'n_signatures': len(sigs), 'wall_s': round(time.time() - t0, 1),
                                 'tail': out.strip().splitlines()[-1][-300:] if out.strip() else ''}
             res['ran'].append('check %s --tier %s with change -> exit %d (%d violation signatures)' % (c, a.tier, rc, len(sigs)))
     finally:
         sh('git checkout -- .', cwd=REPO)
-        sh('git checkout -- evidence', cwd=VERIF)
-        sh('git clean -fdq replays', cwd=VERIF)
+        if wt:
+            sh('git -C /repo worktree remove --force %s' % wt)
+            try:
+                os.unlink('/tmp/st_ev_%d.json' % os.getpid())
+            except OSError:
+                pass
+        else:
+            sh('git checkout -- evidence', cwd=VERIF)
     ok = (res['demo_clean_exit'] == 0 and res.get('demo_mutant_exit', 0) != 0 and '87 passed' in res.get('unit_tests', ''))
     res['confirmed'] = ok
     res['detected_by'] = [c for c, r in res['checks'].items() if r['exit'] == 1]
